@@ -260,6 +260,19 @@ class timeout:
             out.dispose_source(0)    # ... and the source's subscription is released
 
 
+class timeout_with_mapper_defaults(timeout_with_mapper):
+    """first timeout and fallback omitted: nothing is due before the first element; a timeout fails the sequence with Exception("Timeout")"""
+
+    def on_subscribe(s, out):
+        out.subscribe(out.never())
+        out.subscribe_source(0)
+
+    def switch(s, out):
+        s.switched = True
+        out.subscribe(out.throw(Exception("Timeout")))
+        out.dispose_source(0)
+
+
 class timeout_failing(timeout):
     """no fallback was given: at the due time the sequence fails with Exception("Timeout") - the subscriber is handed to throw(that)"""
 
